@@ -3,7 +3,7 @@ from vlib import *
 import gen_ex
 from props import exlib
 
-PROP = "C06"; MODULES = ["NeatviVerif.Props.C06", "NeatviVerif.Props.C06b", "NeatviVerif.Props.C06c"]; MODE = "ex06"
+PROP = "C06"; MODULES = ["NeatviVerif.Props.C06", "NeatviVerif.Props.C06b", "NeatviVerif.Props.C06c", "NeatviVerif.Props.C06d"]; MODE = "ex06"
 
 def streams(probe, tier, seed, wide):
     rng = Rng(seed)
